@@ -69,9 +69,19 @@ func HarnessC10Math() {
 		t.Math = m
 	}
 	in := zzInput("in")
-	if _, isFloat := in.(float64); isFloat && m.Multiply != nil {
-		// float64(*Multiply) is a floating-point kernel: concrete operand only
-		m.Multiply = ptr.To(int64(3))
+	if _, isFloat := in.(float64); isFloat {
+		// float64(*Multiply), and the comparison of a float with float64(bound),
+		// are floating-point kernels: concrete operands only (HarnessC10ClampFloat
+		// covers clamping floats over concrete lists)
+		if m.Multiply != nil {
+			m.Multiply = ptr.To(int64(3))
+		}
+		if m.ClampMin != nil {
+			m.ClampMin = ptr.To(int64(1))
+		}
+		if m.ClampMax != nil {
+			m.ClampMax = ptr.To(int64(1))
+		}
 	}
 	out, err := Resolve(t, in)
 	if err != nil {
@@ -297,5 +307,46 @@ func HarnessC10Base64() {
 	if err == nil {
 		zz.Cover("roundtrip")
 		zz.Assert("base64-roundtrip-preserves-the-value", dec == any(in))
+	}
+}
+
+// HarnessC10ClampFloat: clamping a floating-point input. Floats are outside
+// the solver's reach, so input and bound come from small concrete lists
+// (around the bound, fractional, huge); the result, as a number, is never
+// above clampMax / below clampMin, and is the input or the bound.
+//
+//gosym:harness panics
+//gosym:cover clamped passthrough
+func HarnessC10ClampFloat() {
+	in := []float64{5.5, -5.5, 5, 4.9, -4.9, 1e300, -1e300}[zz.Choose("in.float", 7)]
+	bound := []int64{5, -5, 6, -6, 0}[zz.Choose("bound", 5)]
+	max := zz.Bool("clamp.max")
+	m := &v1.MathTransform{Type: v1.MathTransformTypeClampMin, ClampMin: ptr.To(bound)}
+	if max {
+		m = &v1.MathTransform{Type: v1.MathTransformTypeClampMax, ClampMax: ptr.To(bound)}
+	}
+	out, err := Resolve(v1.Transform{Type: v1.TransformTypeMath, Math: m}, in)
+	zz.Assert("clamp-of-a-float-no-error", err == nil)
+	if err != nil {
+		return
+	}
+	var o float64
+	switch v := out.(type) {
+	case float64:
+		o = v
+		zz.Cover("passthrough")
+		zz.Assert("clamp-identity-or-bound", v == in)
+	case int64:
+		o = float64(v)
+		zz.Cover("clamped")
+		zz.Assert("clamp-identity-or-bound", v == bound)
+	default:
+		zz.Assert("clamp-returns-a-number", false)
+		return
+	}
+	if max {
+		zz.Assert("clamp-max-upper-bound", o <= float64(bound))
+	} else {
+		zz.Assert("clamp-min-lower-bound", o >= float64(bound))
 	}
 }
